@@ -222,14 +222,22 @@ Lemma norm_sound_l ino st cs st' :
   walk ino st cs = WOk st' -> walk ino st (norm [] cs) = WOk st'.
 Proof. intros H. eapply (norm_walk ino st cs [] st st'); auto. Qed.
 
-(* the normal form has no `.`, and `..` only at the front *)
-Fixpoint clean (seen_name : bool) (cs : list str) : bool :=
-  match cs with
-  | [] => true
-  | c :: cs' =>
-      negb (is_dot c) &&
-      (if is_dotdot c then negb seen_name && clean false cs' else clean true cs')
-  end.
+(* the normal form contains no `.` component *)
+Lemma norm_no_dot_aux : forall cs acc,
+  Forall (fun a => is_dot a = false) acc ->
+  Forall (fun a => is_dot a = false) (norm acc cs).
+Proof.
+  induction cs as [|c cs IH]; intros acc H; cbn.
+  - apply Forall_rev. exact H.
+  - destruct (is_dot c) eqn:Ed; auto.
+    destruct (is_dotdot c).
+    + destruct acc as [|a acc']; [apply IH; constructor; auto|].
+      inversion H; subst. destruct (is_dotdot a); apply IH; auto.
+    + apply IH. constructor; auto.
+Qed.
+
+Lemma norm_no_dot_l cs : Forall (fun a => is_dot a = false) (norm [] cs).
+Proof. apply norm_no_dot_aux. constructor. Qed.
 
 (* ---- descriptors and open file descriptions ---------------------------------------------- *)
 
@@ -311,19 +319,26 @@ Qed.
 
 (* ---- fork / exit ----------------------------------------------------------------------------- *)
 
+(* [g_caught] empty: the sequences collect caught signals before forking *)
 Lemma fork_child_is_copy_l s :
+  g_caught (p_sig (k_cur s)) = [] ->
   let s1 := fst (k_fork s) in
-  k_cur s1 = k_cur s /\ k_susp s1 = k_cur s :: k_susp s /\
+  p_fds (k_cur s1) = p_fds (k_cur s) /\ p_cwd (k_cur s1) = p_cwd (k_cur s) /\
+  p_umask (k_cur s1) = p_umask (k_cur s) /\
+  g_disp (p_sig (k_cur s1)) = g_disp (p_sig (k_cur s)) /\
+  g_mask (p_sig (k_cur s1)) = g_mask (p_sig (k_cur s)) /\
+  g_pend (p_sig (k_cur s1)) = [] /\
+  k_susp s1 = k_cur s :: k_susp s /\
   k_ofd s1 = k_ofd s /\ k_ino s1 = k_ino s /\ snd (k_fork s) = RUnit.
-Proof. cbn. auto. Qed.
+Proof. intros H. unfold k_fork. rewrite H. cbn. repeat split; reflexivity. Qed.
 
-Lemma fork_shares_offset_l s s1 r1 fd w off s2 n s3 :
-  k_fork s = (s1, r1) ->
+Lemma fork_shares_offset_l s s1 fd w off s2 n s3 :
+  k_fork s = (s1, RUnit) ->
   k_lseek s1 fd w off = (s2, ROff n) ->
   k_exit s2 = (s3, RUnit) ->
   exists s4, k_lseek s3 fd WCur 0 = (s4, ROff n).
 Proof.
-  unfold k_fork. intros H; inversion H; subst s1 r1; clear H. intros Hl He.
+  unfold k_fork. intros H; inversion H; subst s1; clear H. intros Hl He.
   unfold k_lseek in Hl.
   destruct (get_ofd _ fd) as [[id o]|] eqn:Hg; try discriminate.
   destruct (get_ofd_inv _ _ _ _ Hg) as (e & G & I & Nn).
@@ -333,7 +348,7 @@ Proof.
   inversion Hl; subst s2 n; clear Hl.
   set (n := Z.to_N _) in *.
   unfold k_exit in He. cbn in He. inversion He; subst s3; clear He.
-  unfold k_lseek, get_ofd. unfold fds in *. cbn [k_cur k_ofd k_ino] in *.
+  unfold k_lseek, get_ofd. unfold fds in *. cbn [k_cur k_ofd k_ino p_fds] in *.
   rewrite G, I.
   rewrite nth_set_nth_eq by (eapply nth_error_lt; eauto).
   cbn [o_ino o_off]. rewrite Ei.
@@ -369,7 +384,8 @@ Lemma step_susp s o :
 Proof.
   intros Hf He. destruct o; try congruence; cbn [step];
     try (unfold k_close, k_dup, k_dup2, k_read, k_write, k_lseek, k_fstat, k_stat, k_umask,
-           k_chdir, k_getcwd, k_pipe, k_readdir, k_getfd, k_setfd, k_access; susp_tac; fail).
+           k_chdir, k_getcwd, k_pipe, k_readdir, k_getfd, k_setfd, k_access,
+           k_sigaction, k_getsigaction, k_raise, k_caught, k_sigmask; susp_tac; fail).
   unfold k_open. repeat break_match; cbn [fst]; try reflexivity; try apply open_existing_susp.
   all: repeat match goal with
          | H : install _ _ _ = (_, _) |- _ => apply install_susp' in H; rewrite H; clear H
@@ -418,8 +434,8 @@ Lemma subshell_isolation_l s ops :
   k_cur (fst (run s (OFork :: ops ++ [OExit]))) = k_cur s /\
   k_susp (fst (run s (OFork :: ops ++ [OExit]))) = k_susp s.
 Proof.
-  intros Hn. cbn [run step k_fork].
-  set (s1 := mkK (k_ino s) (k_ofd s) (k_cur s) (k_cur s :: k_susp s)).
+  intros Hn. cbn [run step]. unfold k_fork.
+  set (s1 := mkK (k_ino s) (k_ofd s) _ (k_cur s :: k_susp s)).
   rewrite run_app.
   destruct (run s1 ops) as [s2 r2] eqn:E2.
   assert (Hs : k_susp s2 = k_cur s :: k_susp s).
@@ -713,11 +729,16 @@ Lemma list_eqb_refl {A} (eqb : A -> A -> bool) :
   (forall x, eqb x x = true) -> forall l, list_eqb eqb l l = true.
 Proof. intros H l; induction l; cbn; auto. rewrite H, IHl. reflexivity. Qed.
 
+Lemma disp_eqb_refl d : disp_eqb d d = true.
+Proof. destruct d; reflexivity. Qed.
+Lemma disp_eqb_eq a b : disp_eqb a b = true -> a = b.
+Proof. destruct a, b; cbn; congruence. Qed.
+
 Lemma res_eqb_refl r : res_eqb r r = true.
 Proof.
   destruct r; cbn; auto;
     rewrite ?N.eqb_refl, ?str_eqb_refl, ?kind_eqb_refl, ?errno_eqb_refl, ?access_eqb_refl,
-      ?Bool.eqb_reflx; auto;
+      ?Bool.eqb_reflx, ?disp_eqb_refl; auto;
     apply list_eqb_refl; apply str_eqb_refl.
 Qed.
 
@@ -768,6 +789,13 @@ Proof.
   unfold tree_eqb. rewrite (list_eqb_refl _ tree_entry_eqb_refl). reflexivity.
 Qed.
 
+Lemma script3_oracle_refl o : run_case (CScript3 o o o) = 0%N.
+Proof.
+  pose proof (script_oracle_refl o) as H. unfold run_case in *.
+  destruct (script_oracle o o) as [k|]; [|reflexivity].
+  exfalso. lia.
+Qed.
+
 (* and any accepted pair of observations really is a pair of equal observations *)
 Lemma errno_eqb_eq a b : errno_eqb a b = true -> a = b.
 Proof. destruct a, b; cbn; congruence. Qed.
@@ -789,6 +817,7 @@ Proof.
            | H : kind_eqb _ _ = true |- _ => apply kind_eqb_eq in H
            | H : errno_eqb _ _ = true |- _ => apply errno_eqb_eq in H
            | H : access_eqb _ _ = true |- _ => apply access_eqb_eq in H
+           | H : disp_eqb _ _ = true |- _ => apply disp_eqb_eq in H
            | H : Bool.eqb _ _ = true |- _ => apply Bool.eqb_prop in H
            end; subst; reflexivity.
 Qed.
